@@ -622,3 +622,91 @@ m('C01','benign-write-early-return',R,
   '\tok, newseqno, piddelta := down.packetmap.Map(flags.Seqno, flags.Pid)\n\tif !ok {\n\t\treturn 0, nil\n\t}',
   '\tmapped, newseqno, piddelta := down.packetmap.Map(flags.Seqno, flags.Pid)\n\tif mapped == false {\n\t\treturn 0, nil\n\t}',
   '','','renamed result variable and == false',benign=True)
+# ---------------- C05 ----------------
+PC='packetcache/packetcache.go'
+RR='rtpconn/rtpreader.go'
+RW='rtpconn/rtpwriter.go'
+m('C05','get-no-seqno-check',PC,
+  '\t\tif entries[i].lengthAndMarker == 0 || entries[i].seqno != seqno {','\t\tif entries[i].lengthAndMarker == 0 {',
+  'R5.1','copy out of entries[i]','any non-empty slot is returned for any seqno',quick=True)
+m('C05','getat-no-seqno-check',PC,
+  '\tif cache.entries[index].seqno != seqno {\n\t\treturn 0\n\t}\n','',
+  'R5.1','copy out of cache.entries[index]','a recycled slot is returned under the old seqno')
+m('C05','getat-other-length',PC,
+  '\t\tresult[:cache.entries[index].length()],\n\t\tcache.entries[index].buf[:]),','\t\tresult[:cache.entries[0].length()],\n\t\tcache.entries[index].buf[:]),',
+  'R5.1','copy out of cache.entries[index]','bytes of one slot with the length of another')
+m('C05','get-padded-copy',PC,
+  '\t\t\t\tresult[:entries[i].length()],\n\t\t\t\tentries[i].buf[:]))','\t\t\t\tresult,\n\t\t\t\tentries[i].buf[:]))',
+  'R5.1','copy out of entries[i]','whole slot copied: stale tail bytes returned as packet')
+m('C05','get-other-timestamp',PC,
+  '\t\treturn n, entries[i].timestamp, entries[i].marker()','\t\treturn n, entries[0].timestamp, entries[i].marker()',
+  'R5.1','copy out of entries[i]','timestamp of another slot returned')
+m('C05','get-wrong-count',PC,
+  '\tn, _, _ := get(seqno, cache.entries, result)\n\tif n > 0 {\n\t\treturn n\n\t}','\tn, _, _ := get(seqno, cache.entries, result)\n\tif n > 0 {\n\t\treturn uint16(len(result))\n\t}',
+  'R5.1','Get delegates to get','Get reports the buffer size instead of the packet length')
+m('C05','store-other-slot',PC,
+  '\tcache.entries[i].timestamp = timestamp','\tcache.entries[(i+1)%uint16(len(cache.entries))].timestamp = timestamp',
+  'R5.2','Store: one cursor','timestamp written to the neighbouring slot')
+m('C05','store-key-last',PC,
+  '\tcache.entries[i].seqno = seqno','\tcache.entries[i].seqno = cache.last',
+  'R5.2','slot.seqno = seqno','late packets stored under the newest seqno',quick=True)
+m('C05','store-length-plus-one',PC,
+  '\tlam := uint16(len(buf))','\tlam := uint16(len(buf)) + 1',
+  'R5.2','slot.lengthAndMarker','recorded length one byte too long')
+m('C05','store-marker-bit',PC,
+  '\t\tlam |= 0x8000','\t\tlam |= 0x4000',
+  'R5.2','length/marker packing agrees','marker stored in a length bit')
+m('C05','length-mask',PC,
+  '\treturn e.lengthAndMarker & 0x7FFF','\treturn e.lengthAndMarker & 0xFFFF',
+  'R5.2','length/marker packing agrees','marker bit read as part of the length')
+m('C05','tail-no-wrap',PC,
+  '\tcache.tail = (i + 1) % uint16(len(cache.entries))','\tcache.tail = i + 1',
+  'R5.2','Store: tail = (i+1)','tail runs off the ring')
+m('C05','tail-skips',PC,
+  '\tcache.tail = (i + 1) % uint16(len(cache.entries))','\tcache.tail = (i + 2) % uint16(len(cache.entries))',
+  'R5.2','Store: tail = (i+1)','every other slot unused: half the capacity')
+m('C05','store-returns-next',PC,
+  '\treturn cache.bitmap.first, i\n','\treturn cache.bitmap.first, cache.tail\n',
+  'R5.2','Store returns the slot it wrote','writers are given the next slot')
+m('C05','get-unlocked',PC,
+  '\tcache.mu.Lock()\n\tdefer cache.mu.Unlock()\n\n\tn, _, _ := get(seqno, cache.entries, result)','\tn, _, _ := get(seqno, cache.entries, result)',
+  'R5.3','Get','lookup races with Store: mixture of two packets',quick=True)
+m('C05','getat-unlocked',PC,
+  '\tcache.mu.Lock()\n\tdefer cache.mu.Unlock()\n\n\tif int(index) >= len(cache.entries) {','\tif int(index) >= len(cache.entries) {',
+  'R5.3','GetAt','indexed lookup races with Store and resize')
+m('C05','slot-escapes',PC,
+  '// Keyframe returns the seqno of the last seen keyframe','func (cache *Cache) Peek(i int) []byte {\n\tcache.mu.Lock()\n\tdefer cache.mu.Unlock()\n\treturn cache.entries[i].buf[:cache.entries[i].length()]\n}\n\n// Keyframe returns the seqno of the last seen keyframe',
+  'R5.3','slot bytes referenced','a reference to slot storage outlives the lock')
+m('C05','writer-whole-buffer',RW,
+  '\t\t\t\t_, err := l.Write(buf[:bytes])','\t\t\t\t_, err := l.Write(buf)',
+  'R5.4','Cache.GetAt in rtpconn.rtpWriterLoop use','1504 bytes forwarded for every packet')
+m('C05','sendsequence-ignores-miss',RW,
+  '\t\tbytes := cache.Get(seqno, buf)\n\t\tif bytes == 0 {\n\t\t\treturn\n\t\t}\n','\t\tbytes := cache.Get(seqno, buf)\n',
+  'R5.4','Cache.Get in rtpconn.sendSequence use','a miss forwards an empty packet and goes on')
+m('C05','reader-store-whole',RR,
+  '\t\t\tkf, packet.Marker, buf[:bytes],','\t\t\tkf, packet.Marker, buf,',
+  'R5.4','in rtpconn.readLoop use','every packet stored as 1504 bytes',quick=True)
+m('C05','reader-stale-count',RR,
+  '\t\t\tbytes, err = packet.MarshalTo(buf)','\t\t\t_, err = packet.MarshalTo(buf)',
+  'R5.4','in rtpconn.readLoop use','stripped packet stored with the length it had before stripping')
+m('C05','reader-bigger-buffer',RR,
+  '\tbuf := make([]byte, packetcache.BufSize)\n\tvar packet rtp.Packet','\tbuf := make([]byte, packetcache.BufSize+500)\n\tvar packet rtp.Packet',
+  'R5.2','stored length <= slot size','packets over 1504 bytes stored truncated with the full length recorded')
+m('C05','announce-wrong-index',RR,
+  '\t\twriters.write(packet.SequenceNumber, index, delay,','\t\twriters.write(packet.SequenceNumber, index+1, delay,',
+  'R5.4','writers are told','writers fetch from a slot that does not hold the packet')
+m('C05','pair-swapped',RW,
+  '\tpi := packetIndex{seqno, index}','\tpi := packetIndex{index, seqno}',
+  'R5.4','packetIndex{seqno, index}','pair swapped')
+m('C05','store-key-other',RR,
+  '\t\t\tpacket.SequenceNumber, packet.Timestamp,\n\t\t\tkf, packet.Marker, buf[:bytes],','\t\t\tpacket.SequenceNumber+1, packet.Timestamp,\n\t\t\tkf, packet.Marker, buf[:bytes],',
+  'R5.4','stored under the packet\'s own seqno','stored under the next seqno')
+m('C05','writer-fetch-other',RW,
+  '\t\t\tbytes := track.cache.GetAt(pi.seqno, pi.index, buf)','\t\t\tbytes := track.cache.GetAt(pi.seqno, 0, buf)',
+  'R5.4','rtpWriterLoop: GetAt','writer always looks at slot 0')
+m('C05','benign-store-reread-tail',PC,
+  '\tcache.entries[i].timestamp = timestamp','\tcache.entries[cache.tail].timestamp = timestamp',
+  '','','the tail has not been advanced yet: same slot',benign=True)
+m('C05','benign-miss-test',RW,
+  '\t\t\tif bytes == 0 {\n\t\t\t\tcontinue\n\t\t\t}','\t\t\tif bytes < 1 {\n\t\t\t\tcontinue\n\t\t\t}',
+  '','','equivalent miss test',benign=True)
